@@ -317,7 +317,7 @@ def _generic_run(self, cspec, argvals):
     if kind == 'dir':
         data = self.get_data_object()
         # scratch file private to this attempt, removed before returning: work of a killed attempt must never be published
-        scratch = data.dir / f'scratch_{runid}.tmp'
+        scratch = data.dir / f'scratch_p{ST.proc}.tmp'   # named after the simulated process (not the run: run numbering inside set-ordered recomputes is arbitrary)
         scratch.write_text('work in progress')
         V.write_dir_spec(value, data.dir)
         scratch.unlink()
